@@ -161,3 +161,94 @@ def to_yaml(doc):
 
 def hexopts(opts):
     return ",".join("%s:%s" % (k.encode().hex(), v.encode().hex()) for k, v in opts)
+
+
+# ---------- script AST (as read back by vlib/scriptparse.py) -> s-expression ----------
+
+import re as _re
+
+
+def sx_expr(v):
+    if v == ".":
+        return "dot"
+    if _re.fullmatch(r"0x[0-9A-F]{8}", v):
+        return "(hex8 %d)" % int(v, 16)
+    m = _re.fullmatch(r"ADDR\((.*)\)", v)
+    if m:
+        return "(addr %s)" % sx_str(m.group(1))
+    m = _re.fullmatch(r"ABSOLUTE\((\S+) - (\S+)\)", v)
+    if m:
+        return "(abssub %s %s)" % (sx_str(m.group(1)), sx_str(m.group(2)))
+    m = _re.fullmatch(r"\. \+ 0x([0-9A-F]+)", v)
+    if m and (m.group(1) == "0" or not m.group(1).startswith("0")) and int(m.group(1), 16) < 2 ** 32:
+        return "(dotplus %d)" % int(m.group(1), 16)
+    m = _re.fullmatch(r"(\S+) - (\S+)", v)
+    if m:
+        return "(sub %s %s)" % (sx_str(m.group(1)), sx_str(m.group(2)))
+    return "(raw %s)" % sx_str(v)
+
+
+def sx_opt(f, v):
+    return "None" if v is None else "(Some %s)" % f(v)
+
+
+def sx_bool(b):
+    return "T" if b else "F"
+
+
+def sx_stmt(s, recorded=frozenset()):
+    k = s["k"]
+    if k == "blank":
+        return "blank"
+    if k == "comment":
+        return "(comment %s)" % sx_str(s["text"])
+    if k == "assign":
+        rec = (not s["provide"]) and (not s["hidden"]) and s["sym"] in recorded
+        return "(assign %s %s %s %s %s)" % (sx_bool(s["provide"]), sx_bool(s["hidden"]), sx_bool(rec),
+                                            sx_str(s["sym"]), sx_expr(s["value"]))
+    if k == "align":
+        return "(align %s %d)" % (sx_str(s["sym"]), s["n"])
+    if k == "max":
+        return "(max %s %s)" % (sx_str(s["sym"]), sx_str(s["other"]))
+    if k == "romadd":
+        return "(romadd %s)" % sx_str(s["sec"])
+    if k == "dotadd":
+        return "(dotadd %d)" % s["n"]
+    if k == "fill":
+        return "(fill %d)" % s["n"]
+    if k == "input":
+        return "(input %s %s %s %s %s)" % (sx_bool(s["keep"]), sx_str(s["path"]), sx_opt(sx_str, s["member"]),
+                                           sx_str(s["sect"]), sx_bool(s["wild"]))
+    if k == "outsec":
+        return "(outsec %s %s %s %s %s %s)" % (
+            sx_str(s["name"]), sx_opt(sx_expr, s["addr"]), sx_opt(sx_str, s["at"]), sx_bool(s["noload"]),
+            sx_opt(lambda n: str(n), s["subalign"]), sx_list(sx_stmt(x, recorded) for x in s["body"]))
+    if k == "single_entry":
+        return "(single %s)" % sx_str(s["sect"])
+    if k == "discard":
+        return "(discard %s %s)" % (sx_list(sx_str(p) for p in s["pats"]), sx_bool(s["wild"]))
+    if k == "sections":
+        return "(sections %s)" % sx_list(sx_stmt(x, recorded) for x in s["body"])
+    if k == "entry":
+        return "(entry %s)" % sx_str(s["sym"])
+    if k == "extern":
+        return "(extern %s)" % sx_str(s["sym"])
+    if k == "assert":
+        return "(assert %s %s)" % (sx_str(s["cond"]), sx_str(s["msg"]))
+    raise ValueError(k)
+
+
+def sx_universe(u):
+    """u: ldlink.Universe -> list of usec in link order"""
+    items = []
+    for (path, member) in u.order:
+        for s in u.objects[(path, member)]:
+            items.append("(R %s %s %s %d %d %s %s)" % (sx_str(path), sx_opt(sx_str, member), sx_str(s["name"]),
+                                                      s["size"], s["align"], sx_bool(s["nobits"]),
+                                                      sx_str(s["marker"])))
+    return sx_list(items)
+
+
+def sx_link(cid, ast, universe, ext, recorded=frozenset()):
+    return "(link %s %s %s %s)" % (cid, sx_list(sx_stmt(s, recorded) for s in ast), sx_universe(universe),
+                                   sx_list("(P %s %d)" % (sx_str(k), v) for k, v in ext.items()))
